@@ -12,7 +12,7 @@ VARIABLES prog,      \* finished files
           pend,      \* what waits for a type: [what, ...] or NoPend
           ty,        \* stack of type references under construction
           tops,      \* type operations used for the pending type
-          cat,       \* catalogue of finished definitions [name, k, mod, scoped, keyOk, etype, hasUnderlying]
+          cat,       \* catalogue of finished definitions [name, k, mod, scoped, keyOk, etype, opnames]
           scope,     \* the parser's scope stack (module, then open containers)
           prevEnum,  \* the parser's previous_enumerator_value, symbolically [idx, plus] or <<>>
           counter,   \* for unique names
@@ -24,6 +24,10 @@ NoFile == [none |-> TRUE]
 NoDef  == [none |-> TRUE]
 NoPend == [none |-> TRUE]
 IsNone(x) == "none" \in DOMAIN x
+\* One element of S drawn by TLC's seeded generator (none when S is empty).  The simulator computes every successor of
+\* a state before it picks one, so a choice written as \E x \in S costs |S| successor states per step; drawing the
+\* element first keeps the random walk the same in kind (every element of S can be drawn) at one successor per action.
+Pick(S) == IF S = {} THEN {} ELSE {RandomElement(S)}
 
 RECURSIVE JoinSegs(_, _)
 JoinSegs(segs, i) == IF i > Len(segs) THEN "" ELSE segs[i] \o (IF i < Len(segs) THEN "::" ELSE "") \o JoinSegs(segs, i + 1)
@@ -49,7 +53,7 @@ MemberNames == <<"a", "b", "int32", "c", "tag", "d">>
 DefName(kind) == LET n == Len(cat) + 1 IN
                  IF n = 3 /\ kind = "struct" THEN "struct" ELSE IF n = 4 /\ kind = "enum" THEN "enum" ELSE IF n = 2 /\ kind = "custom" THEN "custom"
                  ELSE (CASE kind = "struct" -> "S" [] kind = "enum" -> "E" [] kind = "interface" -> "I" [] kind = "custom" -> "C" [] kind = "alias" -> "L") \o ToString(n)
-OpName == IF counter % 11 = 5 THEN "idempotent" ELSE "op" \o ToString(counter)
+OpName == CASE counter % 33 = 5 -> "idempotent" [] counter % 33 = 16 -> "stream" [] counter % 33 = 27 -> "unchecked" [] OTHER -> "op" \o ToString(counter)
 EnName == IF counter % 11 = 7 THEN "compact" ELSE "N" \o ToString(counter)
 
 Init == /\ prog = <<>> /\ file = NoFile /\ cur = NoDef /\ pend = NoPend /\ ty = <<>> /\ tops = 0 /\ cat = <<>>
@@ -61,7 +65,7 @@ U(vs) == UNCHANGED vs
 
 \* ---- files and modules
 NewFile == /\ Idle /\ IsNone(file) /\ IsNone(cur) /\ Len(prog) < MaxFiles
-           /\ \E m \in Modules, fa \in {<<>>} \cup {<<a>> : a \in ForeignAttrs}, ma \in {<<>>} \cup {<<a>> : a \in ForeignAttrs} :
+           /\ \E m \in Pick(Modules), fa \in Pick({<<>>} \cup {<<a>> : a \in ForeignAttrs}), ma \in Pick({<<>>} \cup {<<a>> : a \in ForeignAttrs}) :
                 /\ file' = [mod |-> m, fattrs |-> fa, mattrs |-> ma, defs |-> <<>>]
                 /\ scope' = <<JoinSegs(m, 1)>>
            /\ U(<<prog, cur, pend, ty, tops, cat, prevEnum, counter, ch, done>>)
@@ -73,7 +77,7 @@ AttrChoices(S) == {<<>>} \cup {<<a>> : a \in S} \cup {<<a, b>> : a \in ForeignAt
 
 \* ---- structs
 BeginStruct == /\ CanBegin
-               /\ \E c \in BOOLEAN, as \in AttrChoices(DefAttrs) :
+               /\ \E c \in Pick(BOOLEAN), as \in Pick(AttrChoices(DefAttrs)) :
                     cur' = [k |-> "struct", name |-> DefName("struct"), compact |-> c, attrs |-> as, fields |-> <<>>]
                /\ scope' = Append(scope, DefName("struct"))        \* ContainerIdentifier pushes the scope
                /\ counter' = counter + 1
@@ -84,10 +88,10 @@ TagRows == {r \in NumRows : ~r.neg /\ r.cls \in {"zero", "one", "seven", "n42", 
 \* begin a member (field of the open struct / of the last enumerator, parameter, return member): needs a type next
 BeginMember(what, existing, allowTag, allowStream) ==
   /\ Len(existing) < MaxMembers
-  /\ \E nm \in {MemberNames[i] : i \in 1..Len(MemberNames)} \ UsedNames(existing),
-        tg \in {<<>>} \cup (IF allowTag THEN {<<r>> : r \in {x \in TagRows : x.cls \notin UsedTags(existing)}} ELSE {}),
-        st \in (IF allowStream /\ ~(what = "ret" /\ existing = <<>>) THEN BOOLEAN ELSE {FALSE}),
-        as \in {<<>>} \cup {<<a>> : a \in ForeignAttrs} :
+  /\ \E nm \in Pick({MemberNames[i] : i \in 1..Len(MemberNames)} \ UsedNames(existing)),
+        tg \in Pick({<<>>, <<>>} \cup (IF allowTag THEN {<<r>> : r \in {x \in TagRows : x.cls \notin UsedTags(existing)}} ELSE {})),
+        st \in Pick(IF allowStream /\ ~(what = "ret" /\ existing = <<>>) THEN BOOLEAN ELSE {FALSE}),
+        as \in Pick({<<>>} \cup {<<a>> : a \in ForeignAttrs}) :
         pend' = [what |-> what, name |-> nm, tag |-> tg, stream |-> st, attrs |-> as]
   /\ ty' = <<>> /\ tops' = 0
 AddField == /\ Idle /\ ~IsNone(cur) /\ cur.k = "struct"
@@ -102,10 +106,10 @@ RefSegs(e) == IF ~IsNone(file) /\ e.mod = file.mod THEN {<<e.name>>, Append(e.mo
               ELSE {Append(e.mod, e.name), <<"">> \o Append(e.mod, e.name)}
 \* leaves while fewer than two operands wait; combining operands is always possible, so every type can be finished
 TLeafPrim == /\ Typing /\ tops < MaxTypeOps /\ Len(ty) < 2
-             /\ \E p \in Prims : ty' = Append(ty, TR([f |-> "prim", n |-> p]))
+             /\ \E p \in Pick(Prims) : ty' = Append(ty, TR([f |-> "prim", n |-> p]))
              /\ tops' = tops + 1 /\ U(<<prog, file, cur, pend, cat, scope, prevEnum, counter, ch, done>>)
 TLeafNamed == /\ Typing /\ tops < MaxTypeOps /\ Len(ty) < 2
-              /\ \E i \in {j \in 1..Len(cat) : cat[j].k \in {"struct", "enum", "custom", "alias"}} : \E w \in RefSegs(cat[i]) :
+              /\ \E i \in Pick({j \in 1..Len(cat) : cat[j].k \in {"struct", "enum", "custom", "alias"}}) : \E w \in Pick(RefSegs(cat[i])) :
                    ty' = Append(ty, TR([f |-> "named", w |-> w, ref |-> i]))
               /\ tops' = tops + 1 /\ U(<<prog, file, cur, pend, cat, scope, prevEnum, counter, ch, done>>)
 TSeq == /\ Typing /\ tops < MaxTypeOps /\ Len(ty) >= 1
@@ -126,7 +130,7 @@ TOpt == /\ Typing /\ Len(ty) >= 1 /\ ~ty[Len(ty)].opt
         /\ ty' = [ty EXCEPT ![Len(ty)].opt = TRUE]
         /\ U(<<prog, file, cur, pend, tops, cat, scope, prevEnum, counter, ch, done>>)
 TAttr == /\ Typing /\ Len(ty) >= 1 /\ Len(ty[Len(ty)].attrs) < MaxAttrs
-         /\ \E a \in ForeignAttrs : ty' = [ty EXCEPT ![Len(ty)].attrs = Append(@, a)]
+         /\ \E a \in Pick(ForeignAttrs) : ty' = [ty EXCEPT ![Len(ty)].attrs = Append(@, a)]
          /\ U(<<prog, file, cur, pend, tops, cat, scope, prevEnum, counter, ch, done>>)
 
 \* ---- attaching the finished type
@@ -149,8 +153,9 @@ MaxCls(u) == CASE u = "int8" -> "i8max" [] u = "uint8" -> "u8max" [] u = "int16"
                [] u \in {"int32", "varint32", "none"} -> "i32max" [] u \in {"uint32", "varuint32"} -> "u32max" [] u = "int64" -> "i64max"
                [] u = "uint64" -> "u64max" [] u = "varint62" -> "v62max" [] u = "varuint62" -> "vu62max"
 BeginEnum == /\ CanBegin
-             /\ \E u \in {"none"} \cup Integral, c \in BOOLEAN, un \in BOOLEAN, as \in AttrChoices(DefAttrs) :
-                  /\ c => (u = "none" /\ ~un)                           \* compact enums are neither backed nor unchecked
+             /\ \E sh \in Pick({x \in ({"none"} \cup Integral) \X BOOLEAN \X BOOLEAN : x[2] => (x[1] = "none" /\ ~x[3])}),   \* compact enums are neither backed nor unchecked
+                   as \in Pick(AttrChoices(DefAttrs)) :
+                  LET u == sh[1]  c == sh[2]  un == sh[3] IN
                   /\ cur' = [k |-> "enum", name |-> DefName("enum"), compact |-> c, unchecked |-> un,
                              underlying |-> IF u = "none" THEN <<>> ELSE <<TR([f |-> "prim", n |-> u])>>, attrs |-> as, ens |-> <<>>, u |-> u]
              /\ scope' = Append(scope, DefName("enum"))
@@ -164,13 +169,13 @@ InRange(v, u) == /\ v.idx >= IdxOf(MinCls(u))
 \* positions above the previous explicit one, and above the small implicit run that starts at zero
 Exceeds(row) == IF prevEnum = <<>> THEN TRUE ELSE (IdxOf(row.cls) >= prevEnum[1].idx + 2 /\ IdxOf(row.cls) >= IdxOf("i8max"))
 AddEnumerator == /\ Idle /\ ~IsNone(cur) /\ cur.k = "enum" /\ Len(cur.ens) < MaxMembers + 1
-                 /\ \E as \in {<<>>} \cup {<<a>> : a \in ForeignAttrs}, wf \in BOOLEAN :
+                 /\ \E as \in Pick({<<>>} \cup {<<a>> : a \in ForeignAttrs}), wf \in Pick(BOOLEAN) :
                     \/ /\ InRange(ImplicitNext, cur.u) /\ (IF prevEnum = <<>> THEN TRUE ELSE (prevEnum[1].plus < 1 \/ prevEnum[1].idx = IdxOf("zero")))
                        /\ cur' = [cur EXCEPT !.ens = Append(@, [name |-> EnName, explicit |-> FALSE, num |-> [neg |-> FALSE, lit |-> "0"],
                                                                 value |-> [base |-> DecOf(NumOrder[ImplicitNext.idx]), plus |-> ImplicitNext.plus],
                                                                 fields |-> IF wf /\ cur.u = "none" THEN <<<<>>>> ELSE <<>>, attrs |-> as])]
                        /\ prevEnum' = <<ImplicitNext>>
-                    \/ \E row \in NumRows :
+                    \/ \E row \in Pick({r \in NumRows : Exceeds(r) /\ InRange([idx |-> IdxOf(r.cls), plus |-> 0], cur.u)}) :
                        /\ Exceeds(row) /\ InRange([idx |-> IdxOf(row.cls), plus |-> 0], cur.u)
                        /\ cur' = [cur EXCEPT !.ens = Append(@, [name |-> EnName, explicit |-> TRUE, num |-> [neg |-> row.neg, lit |-> row.lit],
                                                                 value |-> [base |-> row.dec, plus |-> 0],
@@ -189,7 +194,7 @@ AttachEnField == /\ Ready /\ pend.what = "enfield" /\ TagOk(pend, ty[1])
 
 \* ---- interfaces and operations
 BeginInterface == /\ CanBegin
-                  /\ \E bs \in SUBSET {j \in 1..Len(cat) : cat[j].k = "interface"}, as \in AttrChoices(DefAttrs) :
+                  /\ \E bs \in Pick({b \in SUBSET {j \in 1..Len(cat) : cat[j].k = "interface"} : Cardinality(b) <= 2}), as \in Pick(AttrChoices(DefAttrs)) :
                        /\ Cardinality(bs) <= 2
                        /\ LET order == CHOOSE s \in [1..Cardinality(bs) -> bs] : \A a, b \in 1..Cardinality(bs) : a < b => s[a] < s[b] IN
                           cur' = [k |-> "interface", name |-> DefName("interface"), attrs |-> as, ops |-> <<>>,
@@ -200,11 +205,20 @@ BeginInterface == /\ CanBegin
                   /\ scope' = Append(scope, DefName("interface"))
                   /\ counter' = counter + 1
                   /\ U(<<prog, file, pend, ty, tops, cat, prevEnum, ch, done>>)
-OpAttrs == {<<>>} \cup {<<a>> : a \in ForeignAttrs}
-           \cup {<<[d |-> <<"compress">>, paren |-> TRUE, args |-> <<[q |-> FALSE, id |-> 0, s |-> "Args"], [q |-> FALSE, id |-> 0, s |-> "Return"]>>]>>}
+BArg(x) == [q |-> FALSE, id |-> 0, s |-> x]
+\* the attributes that are legal on operations: foreign ones, compress / slicedFormat with each argument list, deprecated
+\* with and without a reason, and - on operations that return nothing - oneway
+OpAttrs(shape) ==
+  {<<>>} \cup {<<a>> : a \in ForeignAttrs}
+  \cup {<<[d |-> <<dir>>, paren |-> TRUE, args |-> as]>> : dir \in {"compress", "slicedFormat"}, as \in {<<BArg("Args")>>, <<BArg("Return")>>, <<BArg("Args"), BArg("Return")>>}}
+  \cup {<<[d |-> <<"deprecated">>, paren |-> FALSE, args |-> <<>>]>>, <<[d |-> <<"deprecated">>, paren |-> TRUE, args |-> <<[q |-> TRUE, id |-> 1, s |-> ""]>>]>>}
+  \cup (IF shape = "none" THEN {<<[d |-> <<"oneway">>, paren |-> FALSE, args |-> <<>>]>>} ELSE {})
+\* no redeclaration of an inherited operation: the names of the operations of all (transitive) bases are taken
+InheritedOpNames == UNION {cat[cur.bases[i].t.ref].opnames : i \in 1..Len(cur.bases)}
 AddOperation == /\ Idle /\ ~IsNone(cur) /\ cur.k = "interface" /\ Len(cur.ops) < MaxMembers
+                /\ OpName \notin InheritedOpNames
                 /\ (IF cur.ops = <<>> THEN TRUE ELSE cur.ops[Len(cur.ops)].closed)
-                /\ \E idem \in BOOLEAN, as \in OpAttrs, shape \in {"none", "single", "tuple"} :
+                /\ \E idem \in Pick(BOOLEAN), shape \in Pick({"none", "single", "tuple"}) : \E as \in Pick(OpAttrs(shape)) :
                      cur' = [cur EXCEPT !.ops = Append(@, [name |-> OpName, idem |-> idem, attrs |-> as, params |-> <<>>,
                                                            rets |-> <<>>, single |-> shape = "single", shape |-> shape, closed |-> FALSE])]
                 /\ counter' = counter + 1
@@ -237,12 +251,12 @@ CloseOperation == /\ OpOpen
 
 \* ---- custom types and aliases
 AddCustom == /\ CanBegin
-             /\ \E as \in AttrChoices(DefAttrs) :
+             /\ \E as \in Pick(AttrChoices(DefAttrs)) :
                   cur' = [k |-> "custom", name |-> DefName("custom"), attrs |-> as]
              /\ counter' = counter + 1
              /\ U(<<prog, file, pend, ty, tops, cat, scope, prevEnum, ch, done>>)
 BeginAlias == /\ CanBegin
-              /\ \E as \in AttrChoices(DefAttrs) :
+              /\ \E as \in Pick(AttrChoices(DefAttrs)) :
                    /\ cur' = [k |-> "alias", name |-> DefName("alias"), attrs |-> as]
                    /\ pend' = [what |-> "alias", name |-> "", tag |-> <<>>, stream |-> FALSE, attrs |-> <<>>]
               /\ ty' = <<>> /\ tops' = 0 /\ counter' = counter + 1
@@ -283,7 +297,8 @@ CatEntry(d) ==
   [name |-> d.name, k |-> d.k, mod |-> file.mod, scoped |-> Scoped(file.mod, d.name),
    keyOk |-> CASE d.k = "struct" -> StructKeyOk(d) [] d.k = "enum" -> d.underlying # <<>> [] d.k = "custom" -> TRUE
                [] d.k = "alias" -> KeyLegal([d.type EXCEPT !.opt = FALSE]) [] OTHER -> FALSE,
-   etype |-> IF d.k = "alias" THEN ExpectTR(d.type) ELSE <<>>]
+   etype |-> IF d.k = "alias" THEN ExpectTR(d.type) ELSE <<>>,
+   opnames |-> IF d.k = "interface" THEN {d.ops[i].name : i \in 1..Len(d.ops)} \cup UNION {cat[d.bases[i].t.ref].opnames : i \in 1..Len(d.bases)} ELSE {}]
 EndDef == /\ Idle /\ ~IsNone(cur)
           /\ (cur.k = "struct" /\ cur.compact => cur.fields # <<>>)                       \* compact structs are non-empty
           /\ (cur.k = "enum" /\ ~cur.unchecked => cur.ens # <<>>)                         \* checked enums are non-empty
